@@ -225,10 +225,12 @@ def build_netlist(spec):
         lib = nl.create_library(name=ls['name'])
         for ds in ls['defs']:
             d = lib.create_definition(name=ds['name'])
-            for pn in ds['ports']:
+            for k, pn in enumerate(ds['ports']):
                 p = d.create_port(name=pn)
-                p.direction = sdn.IN
-                p.create_pin()
+                p.direction = {'in': sdn.IN, 'out': sdn.OUT, 'inout': sdn.INOUT}[ds['dirs'][k]] if 'dirs' in ds else sdn.IN
+                p.create_pins(ds['widths'][k]) if 'widths' in ds and ds['widths'][k] > 1 else p.create_pin()
+                if 'arrays' in ds and ds['arrays'][k] and len(p.pins) == 1:
+                    p.is_scalar = False
             if leaf is None:
                 leaf = d
                 if not d.ports:
@@ -244,6 +246,11 @@ def build_netlist(spec):
                 inst = d.create_child(name=iname, reference=leaf)
                 if d.cables and len(d.cables[k % len(d.cables)].wires) >= 1:
                     d.cables[k % len(d.cables)].wires[0].connect_pin(inst.pins[leaf.ports[0].pins[0]])
+            if ds.get('join_ports') and d.cables:
+                # the cell's own port pins on its nets, one after the other over the wires of its cables
+                wires = [wr for c in d.cables for wr in c.wires]
+                for k, pin in enumerate(pin for p in d.ports for pin in p.pins):
+                    wires[k % len(wires)].connect_pin(pin)
             last = d
     top = sdn.Instance(name=spec['top'])
     top.reference = last
